@@ -33,7 +33,12 @@ const (
 	TStore                      // a store whose address rendering matches Re
 	TRetConst                   // a return whose result #Idx may be something else than the constant Re
 	TAnyRet                     // any return
+	TRetMatch                   // a return whose result #Idx does not match regexp Re
 )
+
+func TargetAnyReturn() Target { return Target{Kind: TAnyRet} }
+
+func RetNotMatch(i int, re string) Target { return Target{Kind: TRetMatch, Idx: i, Re: re} }
 
 type Target struct {
 	Kind  TargetKind
@@ -428,6 +433,7 @@ func (e *e1Engine) returnIsSuccess(r *ssa.Return, lits []Lit) bool {
 type e1Result struct {
 	ok       bool
 	hit      ssa.Instruction
+	hitDesc  string
 	path     []int // block indices from entry to the hit
 	matched  []int // per literal: number of Ifs it decided
 	nIfs     int
@@ -447,6 +453,27 @@ func (e *e1Engine) callDesc(ins ssa.Instruction) (string, bool) {
 	return "", false
 }
 
+// callMatches: does the call instruction match re?  An unanchored pattern has
+// to start matching inside the callee name (or the "defer "/"go " prefix), so
+// that a call merely mentioned inside another call's arguments is not a match.
+func (e *e1Engine) callMatches(ins ssa.Instruction, re string) (string, bool) {
+	d, ok := e.callDesc(ins)
+	if !ok {
+		return "", false
+	}
+	head := len(d)
+	if ci, ok := ins.(ssa.CallInstruction); ok {
+		if _, isCall := ins.(*ssa.Call); isCall {
+			head = len(calleeName(ci.Common())) + 1
+		}
+	}
+	loc := e.re(re).FindStringIndex(d)
+	if loc == nil || loc[0] >= head {
+		return d, false
+	}
+	return d, true
+}
+
 func (e *e1Engine) isTarget(ins ssa.Instruction, t Target, lits []Lit) bool {
 	switch t.Kind {
 	case TSuccess:
@@ -460,12 +487,18 @@ func (e *e1Engine) isTarget(ins ssa.Instruction, t Target, lits []Lit) bool {
 		if r, ok := ins.(*ssa.Return); ok && t.Idx < len(r.Results) {
 			return desc(retOperand(r, t.Idx), 3) != t.Re
 		}
+	case TRetMatch:
+		if r, ok := ins.(*ssa.Return); ok && t.Idx < len(r.Results) {
+			return !e.re(t.Re).MatchString(desc(retOperand(r, t.Idx), maxDepth))
+		}
 	case TCall:
-		if d, ok := e.callDesc(ins); ok {
-			if t.ReNot != "" && e.re(t.ReNot).MatchString(d) {
-				return false
+		if _, ok := e.callMatches(ins, t.Re); ok {
+			if t.ReNot != "" {
+				if _, ex := e.callMatches(ins, t.ReNot); ex {
+					return false
+				}
 			}
-			return e.re(t.Re).MatchString(d)
+			return true
 		}
 	case TStore:
 		if s, ok := ins.(*ssa.Store); ok {
@@ -508,6 +541,7 @@ func (e *e1Engine) eval(fn *ssa.Function, row *Row) e1Result {
 	for _, s := range row.Barrier {
 		barriers = append(barriers, e.re(s))
 	}
+	_ = barriers
 	// pass 1: reachable blocks under pruning and barriers (repeated while
 	// conditions that are phis become decided by edge feasibility)
 	var prev map[*ssa.BasicBlock]*ssa.BasicBlock
@@ -530,11 +564,9 @@ func (e *e1Engine) eval(fn *ssa.Function, row *Row) e1Result {
 		order = append(order, b)
 		cut := false
 		for i, ins := range b.Instrs {
-			if d, ok := e.callDesc(ins); ok {
-				for _, br := range barriers {
-					if br.MatchString(d) {
-						cut = true
-					}
+			for _, bs := range row.Barrier {
+				if _, ok := e.callMatches(ins, bs); ok {
+					cut = true
 				}
 			}
 			if cut {
@@ -703,6 +735,7 @@ func (e *e1Engine) eval(fn *ssa.Function, row *Row) e1Result {
 			if e.isTarget(ins, row.Target, row.Assume) {
 				res.ok = false
 				res.hit = ins
+				res.hitDesc, _ = e.callDesc(ins)
 				for x := b; x != nil; x = prev[x] {
 					res.path = append([]int{x.Index}, res.path...)
 				}
@@ -789,6 +822,8 @@ func (t Target) String() string {
 		return fmt.Sprintf("return#%d≠%s", t.Idx, t.Re)
 	case TAnyRet:
 		return "return"
+	case TRetMatch:
+		return fmt.Sprintf("return#%d!~%s", t.Idx, t.Re)
 	}
 	return "?"
 }
@@ -836,8 +871,8 @@ func (e *e1Engine) Check(row Row) Obligation {
 	}
 	o.Path = pp
 	o.Detail = fmt.Sprintf("%s is reachable at %s via blocks %s", row.Target, o.Pos, strings.Join(pp, "→"))
-	if d, ok := e.callDesc(r.hit); ok {
-		o.Detail += " [" + d + "]"
+	if r.hitDesc != "" {
+		o.Detail += " [" + r.hitDesc + "]"
 	}
 	if len(missing) > 0 {
 		o.Detail += fmt.Sprintf("; no branch in %s tests %v (guard absent, inverted or its result ignored)", row.Fn, missing)
